@@ -4,6 +4,7 @@ C04 — muxer output is always whole 188-byte packets; byte counts are exact; a 
 import Astits.Model.Mux
 import Astits.Spec.Mux
 import Astits.Proofs.MuxWhole
+import Astits.Proofs.MuxFuel
 namespace Astits.C04
 
 /-- `writePacket` either rejects the packet having emitted nothing (the model's error carries no bytes), or
@@ -227,5 +228,168 @@ def panicCalls : List Call :=
 
 example : ((hist (newMux 40) panicCalls).1.map fun o => (o.n, o.err, o.panic, o.chunks.length)) =
     [(0, none, false, 0), (0, none, false, 0), (0, none, true, 2)] := by decide +kernel
+
+/-! ## C04-fuel — the fuel of the packetisation loop
+
+`writeDataLoop` is fuel-recursive and `Mux.writeData` runs it with fuel `data.length + 2`; its fuel-exhausted branch
+returns `Err.other`, an outcome the Go `for` loop does not have.  The theorems below show that the branch is
+unreachable from `Mux.writeData` except in exactly one corner (1 payload byte, PES header written on exactly 184
+bytes, caller adaptation field sent alone first), where the MODEL — not the Go code — reports a spurious error after
+having emitted the same three packets the Go code emits.  `MuxFuel.Exhausted pid hdr fuel data ps waf af cc acc`
+says that the run `writeDataLoop pid hdr fuel data ps waf af cc acc` ends in the `0` branch (defined through the
+instrumented loop `MuxFuel.loopT`, which projects onto `writeDataLoop`: `MuxFuel.loopT_fst`). -/
+
+open MuxFuel in
+/-- **(F1) fuel monotonicity**: a run that does not end in the fuel-exhausted branch returns the same result,
+and does not end in that branch either, with every larger fuel -/
+theorem loop_fuel_mono (pid : Nat) (hdr : PESHeader) (fuel fuel' : Nat) (data : Bytes) (ps waf : Bool)
+    (af : Option PacketAdaptationField) (cc : WrappingCounter) (acc : List Bytes)
+    (h : ¬ Exhausted pid hdr fuel data ps waf af cc acc) (hle : fuel ≤ fuel') :
+    writeDataLoop pid hdr fuel' data ps waf af cc acc = writeDataLoop pid hdr fuel data ps waf af cc acc ∧
+    ¬ Exhausted pid hdr fuel' data ps waf af cc acc :=
+  fuel_mono pid hdr fuel fuel' data ps waf af cc acc h hle
+
+open MuxFuel in
+/-- **(F2) sufficiency**: for a PES header announced with at most 183 bytes — every payload, adaptation field,
+`writeAf` flag, counter and accumulator — the run with the fuel `Mux.writeData` provides does not reach the `0`
+branch, and equals the run with any larger fuel (the fuel-free semantics) -/
+theorem loop_fuel_suffices (pid : Nat) (hdr : PESHeader)
+    (hC : 6 + calcPESOptionalHeaderLength hdr.optionalHeader ≤ 183)
+    (data : Bytes) (waf : Bool) (af : Option PacketAdaptationField) (cc : WrappingCounter) (acc : List Bytes) :
+    ¬ Exhausted pid hdr (data.length + 2) data true waf af cc acc ∧
+    ∀ k, writeDataLoop pid hdr (data.length + 2 + k) data true waf af cc acc =
+         writeDataLoop pid hdr (data.length + 2) data true waf af cc acc :=
+  fuel_suffices pid hdr hC data waf af cc acc
+
+open MuxFuel MuxCounters in
+/-- **(F2) exact characterisation**, for EVERY header: the run `Mux.writeData` makes is exhausted iff there is
+exactly 1 payload byte, the PES header is written (without nil dereference) on exactly 184 bytes, and the caller's
+adaptation field is written first in a packet of its own.  One more unit of fuel always suffices. -/
+theorem loop_fuel_exhausted_iff (pid : Nat) (hdr : PESHeader) (data : Bytes) (waf : Bool)
+    (af : Option PacketAdaptationField) (cc : WrappingCounter) (acc : List Bytes) :
+    (Exhausted pid hdr (data.length + 2) data true waf af cc acc ↔
+      data.length = 1 ∧ (pesHeaderBytes hdr 1).length = 184 ∧ ¬ PesNil hdr ∧
+      ∃ a bs, (if waf then af else none) = some a ∧
+        writePacket (afOnlyPkt pid (cc.get % 16) { a with stuffingLength := bytesAvail waf af }) 188 = .ok bs) ∧
+    (∀ fuel, data.length + 3 ≤ fuel → ¬ Exhausted pid hdr fuel data true waf af cc acc) :=
+  ⟨start_exhausted_iff pid hdr data waf af cc acc, fun fuel hf => fuel_plus_one_suffices pid hdr data waf af cc acc fuel hf⟩
+
+open MuxFuel in
+/-- in the corner the model's run and every longer run emit the same three packets and end in the same counter
+and adaptation field; the model reports `Err.other`, the longer runs (the Go loop) report success -/
+theorem loop_fuel_corner (pid : Nat) (hdr : PESHeader) (data : Bytes) (waf : Bool)
+    (af : Option PacketAdaptationField) (cc : WrappingCounter) (acc : List Bytes)
+    (h : Exhausted pid hdr (data.length + 2) data true waf af cc acc) :
+    ∃ bs0 bs1 bs2 cc' af',
+      writeDataLoop pid hdr (data.length + 2) data true waf af cc acc =
+        (.err .other, cc', af', acc ++ [bs0] ++ [bs1] ++ [bs2]) ∧
+      ∀ k, writeDataLoop pid hdr (data.length + 3 + k) data true waf af cc acc =
+        (.ok (acc ++ [bs0] ++ [bs1] ++ [bs2]), cc', af', acc ++ [bs0] ++ [bs1] ++ [bs2]) :=
+  corner_runs pid hdr data waf af cc acc h
+
+open MuxFuel in
+/-- **(F3)**: for every muxer state, a `WriteData` whose data is not in the corner (`DataCorner d`: 1 payload byte,
+an adaptation field, PES header announced with exactly 184 bytes) — in particular every `WriteData` with a PES
+header announced with at most 183 bytes — returns exactly what the same definition returns with `k` more units
+of fuel, for every `k`: result, muxer state, caller's data -/
+theorem writeData_fuel_irrelevant (m : Mux) (d : MuxerData) (k : Nat) :
+    (¬ DataCorner d → writeDataK k m d = m.writeData d) ∧
+    (6 + calcPESOptionalHeaderLength d.pes.header.optionalHeader ≤ 183 → writeDataK k m d = m.writeData d) ∧
+    writeDataK 0 m d = m.writeData d :=
+  ⟨fun h => MuxFuel.writeData_fuel_irrelevant m d h k, fun h => writeData_fuel_irrelevant_183 m d h k, rfl⟩
+
+open MuxFuel in
+/-- **(F3) provenance of errors**: every error `Mux.writeData` returns has one of the reasons of
+`MuxFuel.ErrReason` — unknown PID; PES header announced with more than 184 bytes; table generation failed; the
+caller's adaptation field is sent alone and `writePacket` rejects it (too large); or, ONLY in the corner, the
+model's fuel ran out.  With a header announced with at most 183 bytes only the reasons of the Go code remain. -/
+theorem writeData_err_reason (m : Mux) (d : MuxerData) (e : Err) (h : (m.writeData d).1.err = some e) :
+    ErrReason m d e ∧
+    (6 + calcPESOptionalHeaderLength d.pes.header.optionalHeader ≤ 183 →
+      (m.ccOf d.pid = none ∧ e = .pidNotFound) ∨
+      (m.retransmitTables (MuxCounters.dataForce m d)).1 = .err e ∨
+      (e = .other ∧ ∃ cc a, m.ccOf d.pid = some cc ∧ d.adaptationField = some a ∧
+        MuxCounters.bytesAvail true (some a) < 6 + (calcPESOptionalHeaderLength d.pes.header.optionalHeader : Int) ∧
+        writePacket (MuxCounters.afOnlyPkt d.pid (cc.get % 16)
+          { a with stuffingLength := MuxCounters.bytesAvail true (some a) }) 188 = .err e)) :=
+  ⟨MuxFuel.writeData_err_reason m d e h, fun hC => writeData_err_reason_183 m d e hC h⟩
+
+open MuxFuel in
+/-- the corner at the level of `WriteData`: `Err.other` from the model, success (same chunks, same count, same
+muxer state) from the same definition with any additional fuel -/
+theorem writeData_fuel_corner (m : Mux) (d : MuxerData) (cc : WrappingCounter) (hcc : m.ccOf d.pid = some cc)
+    (hfit : ¬ 6 + calcPESOptionalHeaderLength d.pes.header.optionalHeader > 184)
+    (tcs : List Bytes) (m1 : Mux) (hr : m.retransmitTables (MuxCounters.dataForce m d) = (.ok tcs, m1))
+    (hx : Exhausted d.pid (MuxCounters.dataHdr m1 d) (d.pes.data.length + 2) d.pes.data true d.adaptationField.isSome
+            d.adaptationField cc []) :
+    ∃ bs0 bs1 bs2,
+      (m.writeData d).1.err = some .other ∧ (m.writeData d).1.chunks = tcs ++ [bs0, bs1, bs2] ∧
+      ∀ k, (writeDataK (k + 1) m d).1.err = none ∧ (writeDataK (k + 1) m d).1.panic = false ∧
+        (writeDataK (k + 1) m d).1.chunks = (m.writeData d).1.chunks ∧
+        (writeDataK (k + 1) m d).1.n = (m.writeData d).1.n ∧
+        (writeDataK (k + 1) m d).2.1 = (m.writeData d).2.1 :=
+  writeData_corner m d cc hcc hfit tcs m1 hr hx
+
+/-! ### non-vacuity and the corner, evaluated -/
+
+/-- an ordinary PES header (PTS only): announced with 14 bytes -/
+def hdrPTS : PESHeader := { streamID := 0xe0, optionalHeader := some { ptsDTSIndicator := 2, pts := some { base := 90000, extension := 0 } } }
+example : 6 + calcPESOptionalHeaderLength hdrPTS.optionalHeader ≤ 183 := by decide
+
+/-- a PES header written on exactly 184 bytes: 173 bytes of extension-2 data -/
+def hdr184 : PESHeader :=
+  { streamID := 0xe0,
+    optionalHeader := some { hasExtension := true, hasExtension2 := true, extension2Data := List.replicate 173 7 } }
+def afRAI : PacketAdaptationField := { randomAccessIndicator := true }
+
+example : 6 + calcPESOptionalHeaderLength hdr184.optionalHeader = 184 ∧ (pesHeaderBytes hdr184 1).length = 184 := by
+  decide +kernel
+
+/-- **the corner**: header of 184 bytes, caller adaptation field, 1 payload byte — fuel 3 is exhausted after three
+packets; with fuel 4 the run succeeds with the same three packets -/
+example :
+    MuxFuel.Exhausted 256 hdr184 3 [9] true true (some afRAI) (newWrappingCounter 15) [] ∧
+    (writeDataLoop 256 hdr184 3 [9] true true (some afRAI) (newWrappingCounter 15) []).2.2.2.length = 3 ∧
+    (writeDataLoop 256 hdr184 4 [9] true true (some afRAI) (newWrappingCounter 15) []).1.isOk = true ∧
+    (writeDataLoop 256 hdr184 4 [9] true true (some afRAI) (newWrappingCounter 15) []).2.2.2 =
+      (writeDataLoop 256 hdr184 3 [9] true true (some afRAI) (newWrappingCounter 15) []).2.2.2 := by
+  decide +kernel
+
+/-- not the corner: the same header without adaptation field, or with 2 payload bytes -/
+example :
+    ¬ MuxFuel.Exhausted 256 hdr184 3 [9] true false none (newWrappingCounter 15) [] ∧
+    ¬ MuxFuel.Exhausted 256 hdr184 4 [9, 9] true true (some afRAI) (newWrappingCounter 15) [] := by
+  decide +kernel
+
+/-- a muxer with one stream that is the PCR PID -/
+def muxEx : Mux :=
+  (MuxCounters.run (newMux 40) [.add { elementaryPID := 0x100, streamType := 0x1b }, .setPCR 0x100]).2
+def cornerData : MuxerData := { pid := 0x100, adaptationField := some afRAI, pes := { data := [9], header := hdr184 } }
+
+/-- the corner through `WriteData`: the model returns `Err.other` with 5 chunks (PAT, PMT, three packets) and
+940 bytes; with one more unit of fuel the same call succeeds with the same chunks -/
+example : MuxFuel.DataCorner cornerData ∧
+    ((muxEx.writeData cornerData).1.err, (muxEx.writeData cornerData).1.chunks.length, (muxEx.writeData cornerData).1.n)
+      = (some .other, 5, 940) ∧
+    ((MuxFuel.writeDataK 1 muxEx cornerData).1.err, (MuxFuel.writeDataK 1 muxEx cornerData).1.chunks.length,
+      (MuxFuel.writeDataK 1 muxEx cornerData).1.n) = (none, 5, 940) ∧
+    (MuxFuel.writeDataK 1 muxEx cornerData).1.chunks = (muxEx.writeData cornerData).1.chunks := by
+  decide +kernel
+
+/-- outside the corner: hypotheses of (F3) satisfied by ordinary data -/
+example : ¬ MuxFuel.DataCorner { pid := 0x100, adaptationField := some afRAI, pes := { data := [9, 9], header := hdr184 } } ∧
+    ¬ MuxFuel.DataCorner { pid := 0x100, adaptationField := some afRAI, pes := { data := [9], header := hdrPTS } } := by
+  decide +kernel
+
+/-- the one loop error the Go code has too: an adaptation field larger than a packet (200 private bytes) is
+rejected by `writePacket` after the tables have been written -/
+def bigAFData : MuxerData :=
+  { pid := 0x100,
+    adaptationField := some { hasTransportPrivateData := true, transportPrivateDataLength := 200,
+                              transportPrivateData := List.replicate 200 0 },
+    pes := { data := [9], header := hdrPTS } }
+example : ((muxEx.writeData bigAFData).1.err, (muxEx.writeData bigAFData).1.chunks.length) = (some .other, 2) ∧
+    ¬ MuxFuel.DataCorner bigAFData := by
+  decide +kernel
 
 end Astits.C04
